@@ -23,14 +23,15 @@ func init() {
 }
 
 type c14Op struct {
-	kind byte // 'a' append n tagged bytes, 'w' chain a slice of n tagged bytes, 'f' flush
+	kind byte // 'a' append n tagged bytes, 'w' chain a slice of n tagged bytes, 'n' append+chain+append inside one callback, 'd' append to the writer's own buffer and chain, 'f' flush
 	n    int
 }
 
 // c14Play runs one history against the pending-bytes model. It returns "" or
 // a description of the first disagreement.
 func c14Play(ops []c14Op, sink *simio.FaultySink) string {
-	w := proto.NewWriter(sink, new(proto.Buffer))
+	own := new(proto.Buffer)
+	w := proto.NewWriter(sink, own)
 	var pending []byte
 	var chained [][]byte
 	tag := byte(1)
@@ -95,6 +96,25 @@ func c14Play(ops []c14Op, sink *simio.FaultySink) string {
 			w.ChainWrite(b)
 			chained = append(chained, b)
 			pending = append(pending, b...)
+		case 'n':
+			// a composite column: header bytes, a chained slice, trailer bytes, all
+			// from inside one ChainBuffer callback
+			a, b, c := fill(3), fill(op.n), fill(2)
+			w.ChainBuffer(func(buf *proto.Buffer) {
+				buf.Buf = append(buf.Buf, a...)
+				w.ChainWrite(b)
+				buf.Buf = append(buf.Buf, c...)
+			})
+			chained = append(chained, b)
+			pending = append(append(append(pending, a...), b...), c...)
+		case 'd':
+			// the caller appends to the buffer it gave the writer (the client encodes
+			// its packets that way) and chains a slice after it
+			a, b := fill(op.n), fill(4)
+			own.Buf = append(own.Buf, a...)
+			w.ChainWrite(b)
+			chained = append(chained, b)
+			pending = append(append(pending, a...), b...)
 		case 'f':
 			if d := flush(i); d != "" {
 				return d
@@ -258,7 +278,19 @@ func runC14(t *testing.T, c *choice.Stream, r *Result, opt RunOpt) {
 	var ops []c14Op
 	total := 0
 	for i := 0; i < n; i++ {
-		switch c.Weighted("op", 5, 4, 3) {
+		switch c.Weighted("op", 5, 4, 3, 1, 1) {
+		case 3:
+			k := c.Pick("n.n", 1, 3, 64, 5000)
+			ops = append(ops, c14Op{'n', k})
+			total += k + 5
+			continue
+		case 4:
+			k := c.Pick("d.n", 1, 8, 100, 4096)
+			ops = append(ops, c14Op{'d', k})
+			total += k + 4
+			continue
+		}
+		switch c.Weighted("op.basic", 5, 4, 3) {
 		case 0:
 			k := c.Pick("a.n", 0, 1, 1, 8, 8, 3, 100, 4096, 70000)
 			ops = append(ops, c14Op{'a', k})
